@@ -23,8 +23,10 @@ RULE = ("all histories up to a length bound over borrow (nested), end-of-borrow 
         "configuration writes on every handle ever created, plus random longer histories; non-trivial = the history contains a borrow or take and afterwards "
         "touches at least two different handles; distinct by case hash")
 
-IOK = ["read", "write", "send", "sendctl", "expect", "fileno", "closed", "close", "exit"]
-IOK_COQ = {"read": "KRead", "write": "KWrite", "send": "KSend", "sendctl": "KSendctl", "expect": "KExpect",
+IOK = ["read", "write", "send", "sendctl", "expect", "fileno", "closed", "close", "exit", "iter"]
+# "iter" advances a read_iter() generator that was created (and advanced once) when the handle came into being: every
+# advance looks at the handle's transport again, so for the ownership discipline it is a read like any other
+IOK_COQ = {"iter": "KRead", "read": "KRead", "write": "KWrite", "send": "KSend", "sendctl": "KSendctl", "expect": "KExpect",
            "fileno": "KFileno", "closed": "KClosed", "close": "KClose", "exit": "KExit"}
 
 
@@ -124,6 +126,14 @@ class OwnSuite(Suite):
             handles = [Channel(sio)]
             stack = []
             out = []
+            iters = {}
+
+            def prime(idx):
+                it = handles[idx].read_iter()
+                next(it)
+                iters[idx] = it
+
+            prime(0)
             for o in case["ops"]:
                 k = o[0]
                 if k in ("borrow", "take", "io", "cfg", "get") and o[1] >= len(handles):
@@ -136,6 +146,7 @@ class OwnSuite(Suite):
                         new = cm.__enter__()
                         handles.append(new)
                         stack.append(cm)
+                        prime(len(handles) - 1)
                         r = [0]
                     elif k == "end":
                         if stack:
@@ -160,12 +171,22 @@ class OwnSuite(Suite):
                     elif k == "take":
                         new = handles[o[1]].take()
                         handles.append(new)
+                        prime(len(handles) - 1)
                         r = [0]
                     elif k == "io":
                         h = handles[o[1]]
                         kind = o[2]
                         r = [0]
-                        if kind == "read":
+                        if kind == "iter":
+                            it = iters.get(o[1])
+                            if it is None:
+                                it = iters[o[1]] = h.read_iter()
+                            try:
+                                next(it)
+                            except BaseException:
+                                iters[o[1]] = None      # a generator that raised is finished
+                                raise
+                        elif kind == "read":
                             h.read(1)
                         elif kind == "write":
                             h.write(b"x")
@@ -228,7 +249,7 @@ class OwnSuite(Suite):
         import itertools
         base = [["borrow", 0], ["borrow", 1], ["end", 0], ["end", 2], ["take", 0], ["take", 1],
                 ["io", 0, "read"], ["io", 1, "write"], ["io", 0, "closed"], ["io", 0, "close"], ["io", 1, "exit"],
-                ["io", 2, "send"], ["cfg", 0, ["black_append", 7]], ["cfg", 1, ["add_death", [122, 113]]], ["get", 0], ["get", 1]]
+                ["io", 2, "send"], ["io", 0, "iter"], ["io", 1, "iter"], ["cfg", 0, ["black_append", 7]], ["cfg", 1, ["add_death", [122, 113]]], ["get", 0], ["get", 1]]
         depth = 4 if thorough else 3
         for seq in itertools.product(range(len(base)), repeat=depth):
             ops = [base[i] for i in seq]
